@@ -1331,10 +1331,28 @@ func c11History(r *hx.R, root string, idx int, tier string, st *c11Stats) hx.Cas
 			finalHuman[rel[i]] = "missing"
 		}
 	}
+	// for the record of a history which did not converge: what the watch believes and what the kernel watches
+	var diag interface{}
+	if !converged {
+		tracked, has := cdi.VerifTracked(cache)
+		watches := 0
+		if ents, err := os.ReadDir("/proc/self/fdinfo"); err == nil {
+			for _, e := range ents {
+				if data, err := os.ReadFile(filepath.Join("/proc/self/fdinfo", e.Name())); err == nil {
+					watches += strings.Count(string(data), "inotify wd:")
+				}
+			}
+		}
+		trel := map[string]bool{}
+		for k, v := range tracked {
+			trel[strings.TrimPrefix(k, base+"/")] = v
+		}
+		diag = map[string]interface{}{"tracked": trel, "has_watcher": has, "inotify_watches_of_the_process": watches}
+	}
 	return hx.Case{
 		Term: hx.C("CHist", hx.LS(modelDirs), hx.L(initTerms), hx.L(labels), fresh.devTerm(), hx.LS(fresh.Errs),
 			hx.B(converged), got.devTerm(), hx.LS(got.Errs)),
-		Desc: map[string]interface{}{"stream": "convergence", "dirs": rel, "configured_as": confRel, "symbolic_links": linkRel, "initial": initHuman,
+		Desc: map[string]interface{}{"stream": "convergence", "watch_state_when_not_converged": diag, "dirs": rel, "configured_as": confRel, "symbolic_links": linkRel, "initial": initHuman,
 			"pacing": pacing, "tail": tail, "history": human,
 			"final": finalHuman, "fresh_cache": fresh.human(base + "/"), "auto_refreshed_cache": got.human(base + "/"),
 			"converged": converged, "waited_ms": float64(wait.Microseconds()) / 1000, "not_allowed": forcedFail},
